@@ -40,6 +40,7 @@ func checkC13(c *Ctx) {
 	c.checkTopicRepliesAnswer()
 	c.checkReplyWrappersEchoId()
 	c.checkReplyGoesToItsRequest()
+	c.checkReportedErrorNotOverwritten()
 	// a request whose in-flight slot is never released blocks every later request of the session
 	c.checkInflightPairing()
 	// a call party that is not a subscriber of the p2p topic makes Topic.original panic (D16) on the next event
